@@ -97,8 +97,12 @@ def run_sequence(det, cfg, bits, ctx, label, resets=(), numpy_params=False):
     """returns (ok, drifts).  resets: positions before which the user calls reset() explicitly (a new epoch starts there)"""
     cls, mcls = CLS[det]
     if numpy_params:
-        d = cls(*[np.int64(v) if isinstance(v, int) else (np.float64(v) if isinstance(v, float) else v) for v in cfg])
-        ctx.count("numpy_typed_parameters")
+        try:
+            d = cls(*[np.int64(v) if isinstance(v, int) else (np.float64(v) if isinstance(v, float) else v) for v in cfg])
+            ctx.count("numpy_typed_parameters")
+        except (ValueError, TypeError):  # a constructor may insist on plain Python types
+            ctx.count("numpy_typed_parameters_refused_by_constructor")
+            d = cls(*cfg)
     else:
         d = cls(*cfg)
     sh = Shadow(lambda: mcls(*cfg), lambda m: m.state)
